@@ -54,6 +54,10 @@ func (r *ComDoc) readDir() error {
 			if raw.Type == DirRoot {
 				rootIndex = len(files) + i
 			}
+			// the name is held in a fixed field, with its terminator
+			if (raw.Type == DirRoot || raw.Type == DirStorage || raw.Type == DirStream) && (raw.NameLength < 2 || int(raw.NameLength) > 2*len(raw.NameRunes)) {
+				return errors.New("directory entry has an invalid name length")
+			}
 			// the chain of a small stream runs through the short table
 			table := r.SAT
 			if raw.Type == DirStream && raw.StreamSize < r.Header.MinStdStreamSize {
